@@ -372,14 +372,29 @@ package function
 //@   ensures[C06] clamp-drops-when-max-below-min: len(f.Points) >= 1 && len(f.ScalarPoints) >= 2 && f.ScalarPoints[1] < f.ScalarPoints[0] ==> !validSample(result)
 //@   ensures[C06] clamp-absent-without-arguments: len(f.Points) == 0 || len(f.ScalarPoints) < 2 ==> !validSample(result)
 //@   ensures[C06,C18] clamp-stamped-with-the-step-time: validSample(result) ==> result.Point.T == f.StepTime
+// The value is the reference's math.Max(min, math.Min(max, v)) - which yields NaN for a NaN bound:
+//@   at math.Min assert[C06] clamp-inner-is-min-of-max-and-value: $a == f.ScalarPoints[1] && $b == f.Points[0].V
+//@   at math.Max assert[C06] clamp-outer-is-max-of-min-and-inner: $a == f.ScalarPoints[0] && $b == callres("math.Min", 1)
+//@   ensures[C06] clamp-value: len(f.Points) >= 1 && len(f.ScalarPoints) >= 2 && !(f.ScalarPoints[1] < f.ScalarPoints[0]) ==>
+//@       ncalls("math.Max") == 1 && ncalls("math.Min") == 1 && result.Point.V == callres("math.Max", 1) && sameslice(result.Metric, f.Labels)
 //@ func init$26
 //@   ensures[C06] clamp_min-absent-without-arguments: len(f.Points) == 0 || len(f.ScalarPoints) == 0 ==> !validSample(result)
 //@   ensures[C06,C18] clamp_min-stamped-with-the-step-time: validSample(result) ==> result.Point.T == f.StepTime
+//@   at math.Max assert[C06] clamp_min-is-max-of-min-and-value: $a == f.ScalarPoints[0] && $b == f.Points[0].V
+//@   ensures[C06] clamp_min-value: len(f.Points) >= 1 && len(f.ScalarPoints) >= 1 ==> ncalls("math.Max") == 1 && result.Point.V == callres("math.Max", 1) && sameslice(result.Metric, f.Labels)
 //@ func init$27
 //@   ensures[C06] clamp_max-absent-without-arguments: len(f.Points) == 0 || len(f.ScalarPoints) == 0 ==> !validSample(result)
 //@   ensures[C06,C18] clamp_max-stamped-with-the-step-time: validSample(result) ==> result.Point.T == f.StepTime
+//@   at math.Min assert[C06] clamp_max-is-min-of-max-and-value: $a == f.ScalarPoints[0] && $b == f.Points[0].V
+//@   ensures[C06] clamp_max-value: len(f.Points) >= 1 && len(f.ScalarPoints) >= 1 ==> ncalls("math.Min") == 1 && result.Point.V == callres("math.Min", 1) && sameslice(result.Metric, f.Labels)
 // simpleFunc (abs, ceil, ..., the math functions): applied to the sample's value, stamped with the step time.
+//@ extern field:execution/function.simpleFunc$1#f(v) r
+//@   pure
 //@ func simpleFunc$1
 //@   requires !isnil(f)
 //@   ensures[C06] simple-function-absent-without-a-sample: len(fa.Points) == 0 ==> !validSample(result)
 //@   ensures[C06,C18] simple-function-stamped-with-the-step-time: validSample(result) ==> result.Point.T == fa.StepTime
+//@   at field:execution/function.simpleFunc$1#f assert[C06] simple-function-gets-the-samples-value: $v == fa.Points[0].V
+//@   ensures[C06] simple-function-called-once: len(fa.Points) >= 1 ==> ncalls("field:execution/function.simpleFunc$1#f") == 1
+//@   ensures[C06] simple-function-value: len(fa.Points) >= 1 ==> result.Point.V == callres("field:execution/function.simpleFunc$1#f", 1)
+//@   ensures[C06,C19] simple-function-carries-the-given-labels: len(fa.Points) >= 1 ==> sameslice(result.Metric, fa.Labels)
